@@ -338,7 +338,8 @@ def fault_histories(inst, kinds, keys=None):
         for kind in kinds:
             if kind in ("skip_output", "dangling_link") and not t["outs"]: continue
             pk = [p for p in inst["procs"] if p["name"] == t["proc"]][0]["kind"]
-            if pk == "gofunc" and kind not in ("exit_before_write", "exit_after_partial", "exit_after_all", "skip_output"): continue
+            if pk == "gofunc" and kind not in ("exit_before_write", "exit_after_partial", "exit_after_all", "skip_output", "panic_after_partial"): continue
+            if pk != "gofunc" and kind == "panic_after_partial": continue
             i2 = dict(inst); i2["faults"] = {t["key"]: kind}
             # a multi-output task that omits one output: the rename order is random, so repeat
             reps = 4 if (kind in ("skip_output", "dangling_link") and len(t["outs"]) > 1) else 1
@@ -347,7 +348,7 @@ def fault_histories(inst, kinds, keys=None):
     return out
 
 # (no SIGINT kind: a check started as a background job of a non-interactive shell inherits SIGINT = ignored, the signal would do nothing)
-ALLFAULTS = ["exit_before_write", "exit_after_partial", "exit_after_all", "sigkill_self", "sigterm_self", "sigkill_shell", "skip_output", "dangling_link"]
+ALLFAULTS = ["exit_before_write", "exit_after_partial", "exit_after_all", "sigkill_self", "sigterm_self", "sigkill_shell", "skip_output", "dangling_link", "panic_after_partial"]
 
 def run_fault_cases(R, insts, kinds, chk):
     cases = []
@@ -361,7 +362,7 @@ def run_fault_cases(R, insts, kinds, chk):
         fs.run_history(h)
         res = None
         parallel = len([t for t in exp["tasks"] if not any(set(t["ins"]) & set(u["outs"]) for u in exp["tasks"])]) > 1 and i2.get("max", 1) > 1
-        if not parallel and kind not in ("sigkill_shell", "dangling_link"):      # (a dangling link is in the temp-dir listing, the model has no such file)
+        if not parallel and kind not in ("sigkill_shell", "dangling_link", "panic_after_partial"):      # (a dangling link is in the temp-dir listing, the model has no such file)
             res = fs.validate_histories(i2, exp, [h], faults=i2["faults"])
         return c, exp, res
     for (i2, key, kind, h), exp, res in pmap(one, cases, workers=12):
@@ -452,6 +453,25 @@ def check_C01(tier):
                 chk.nontrivial.add("dir-output:%s:%s" % (spec, nfiles))
         finally:
             rmtree(d)
+    # a command whose shell exits while a background job it started is still writing the output (through an inherited descriptor):
+    # the task is over when every process of the command has finished, not when the top-level shell returns
+    bg = dict(name="BGW", max=1, bufsize=2,
+              procs=[zoo.src("s", ["1"]),
+                     dict(name="a", kind="cmd", ins=["in"], outs=["out"],
+                          arg="exec 3> {o:out}; echo 'BEGIN a.out_1' >&3; cat {i:in} >&3; ( sleep 0.7; echo 'END a.out_1' >&3 ) & true")],
+              edges=[zoo.E("s.out", "a.in")])
+    d = scratch("bgw")
+    try:
+        prepare_dir(bg, d)
+        obs = fs.run_real_watch(bg, d, [os.path.join(d, "o/a.out_1.txt")], timeout=40); chk.evaluations += 1
+        for w, o in list(obs["first_sight"].items()) + list(obs["at_exit"].items()):
+            if not o["complete"]:
+                chk.violation("command with a background writer: an incomplete file (%d bytes) was observed at the final path %s %s" % (o["size"], os.path.basename(w),
+                              "while part of the command was still running" if "t" in o else "after the workflow had exited with status %s" % obs["rc"]), dict(instance=bg, observation=obs)); break
+        else:
+            chk.nontrivial.add("background-writer")
+    finally:
+        rmtree(d)
     # the standard command as a non-final member of an AND-list: its failure must still fail the task
     andlist = [FA(), FB(2)]
     for i in andlist:
